@@ -643,7 +643,7 @@ void UnicodePrinter::bvisit(const Function &x)
 void UnicodePrinter::bvisit(const FunctionSymbol &x)
 {
     StringBox box(x.get_name());
-    StringBox args;
+    StringBox args("");
     StringBox comma(", ");
     bool first = true;
     for (auto arg : x.get_args()) {
